@@ -4,7 +4,7 @@ use crate::report::{parallel, Report};
 
 pub fn run(prop: &str, tier: &str, seed: u64, workers: usize) -> Report {
     let thorough = tier == "thorough";
-    let (n_general, n_text, n_map, n_arr) = if thorough { (6000, 4000, 3000, 2000) } else { (400, 300, 200, 150) };
+    let (n_general, n_text, n_map, n_arr, n_typing) = if thorough { (6000, 4000, 3000, 2000, 6000) } else { (2500, 1500, 800, 600, 2000) };
     let props: Vec<&str> = match prop { "C01" => vec!["C01"], "C02" => vec!["C02"], "C04" => vec!["C04"], "C05" => vec!["C05"], _ => vec![] };
     let mut total = parallel(workers, |w, nw| {
         let mut rep = Report::default();
@@ -16,8 +16,11 @@ pub fn run(prop: &str, tier: &str, seed: u64, workers: usize) -> Report {
         run_many(&mut rep, seed, 103, n_map, w, nw, &m, &props);
         let a = HistCfg { focus: Focus::ArrayOnly, max_steps: 10, max_replicas: 3, exhaustive_perms: true, model: true };
         run_many(&mut rep, seed, 104, n_arr, w, nw, &a, &props);
+        let ty = HistCfg { focus: Focus::Typing, max_steps: 16, max_replicas: 3, exhaustive_perms: true, model: true };
+        run_many(&mut rep, seed, 105, n_typing, w, nw, &ty, &props);
         rep
     });
+    total.notes.push("stream 105: editor sessions (every replica keeps a cursor in the root text and the root array and mostly continues typing where it stopped, so that its transactions produce runs with consecutive ids and chained origins)".into());
     total.notes.push("histories: 2..4 replicas, local transactions of 1..3 API calls interleaved with deliveries (v1/v2), then every replica receives the rest in FIFO / reverse / random order with duplicates and merged relays; after EVERY step the hook dump (tombstone order in units, integrated ids) is compared with the model's render of the integrated id set; histories with <= 5 messages are additionally replayed on a fresh replica in every permutation".into());
     total
 }
